@@ -185,10 +185,13 @@ class Coll:
     def __init__(self, kind, elems=(), what="", asc=False, bylabel=False, keyel=None):
         self.kind, self.elems, self.what, self.asc, self.bylabel = kind, list(elems), what, asc, bylabel
         self.keyel = keyel            # a map whose keys are texts: what a key looks like
+        self.trail = ()               # what was appended on this path since the collection was empty, in order
+        self.groups = None            # a list filled by a loop: the runs of texts one pass appends ([(t1, t2), ...]), else None
 
     def plus(self, st, **kw):
         c = Coll(self.kind, self.elems + ([st] if st not in self.elems else []), kw.get("what", self.what), kw.get("asc", self.asc), kw.get("bylabel", self.bylabel),
                  kw.get("keyel", self.keyel))
+        c.trail = self.trail + (st,)
         return c
 
     def union(self, o):
@@ -197,7 +200,9 @@ class Coll:
             if x not in el:
                 el.append(x)
         ke = self.keyel if o.keyel is None else (o.keyel if self.keyel is None else join_str(self.keyel, o.keyel))
-        return Coll(self.kind, el, self.what or o.what, self.asc and o.asc, self.bylabel or o.bylabel, ke)
+        c = Coll(self.kind, el, self.what or o.what, self.asc and o.asc, self.bylabel or o.bylabel, ke)
+        c.groups = self.groups
+        return c
 
     def elem(self):
         if not self.elems:
@@ -719,8 +724,11 @@ class ShapeInterp:
                     continue
                 if isinstance(env[a], Coll):
                     c = env[a]
+                    # what one pass appends, as a run: exact when the list was empty before the loop
+                    runs = [d.trail for d in deltas[a] if isinstance(d, Coll) and d.trail] if (c.kind == "list" and not c.elems) else None
                     for d in deltas[a]:
                         c = c.union(d)
+                    c.groups = [r_ for i_, r_ in enumerate(runs) if r_ not in runs[:i_]] if runs else None
                     # the collection is filled in the iteration order of `it`
                     c.what = getattr(it, "what", "") or c.what
                     c.asc = bool(getattr(it, "asc", False)) and not env[a].elems
@@ -1458,6 +1466,16 @@ class ShapeInterp:
                 if isinstance(a, Coll):
                     self.emissions.append({"fi": fi, "node": e, "what": a.what, "asc": a.asc, "pair_asc": None})
                     el = a.elem()
+                    if a.groups and {x_ for g_ in a.groups for x_ in g_} == set(a.elems):
+                        # the texts one pass of the filling loop appends stay together, in their order
+                        runs_ = []
+                        for g_ in a.groups:
+                            r_ = g_[0]
+                            for x_ in g_[1:]:
+                                r_ = r_ + recv + x_
+                            if r_ not in runs_:
+                                runs_.append(r_)
+                        el = runs_[0] if len(runs_) == 1 else Str([("alt", runs_)])
                     return Str([("star", el)]) if not recv.p else Str([("opt", el + Str([("star", recv + el)]))])
                 if isinstance(a, SubSeq):
                     alts = []
